@@ -50,6 +50,7 @@ LEVEL_NOTE = (
     "one, its inner service is neither a wrapper nor remote diagnosis/configuration, or it is the plain SessionResponse before the client "
     "wrote its SessionAuthenticate; a genuine frame numbered below a rejected one is still accepted; the first frame written per TCP "
     "connection is the plain SessionRequest and everything else is a wrapper the reference verifies with strictly increasing numbers. "
+    "A registered consumer callback that raises on some frames is part of the histories: its exception is recorded, the freshness rule is judged unchanged (a replay of the frame it failed on must not be passed on). "
     "Recorded, not judged: exceptions raised into the transport by a wrapper that arrives before the handshake (the statement is about "
     "what is passed on), contiguity 0,1,2.. of outgoing numbers, a genuine fresh frame dropped without a preceding rejected frame."
 )
@@ -74,6 +75,7 @@ AUTH_KINDS = ("plain", "forged-key", "forged-mac", "plain-session-response", "wr
 MAIN_KINDS = (
     "genuine", "genuine", "genuine", "gap", "late", "replay", "equal", "forged-key", "forged-mac", "forged-ct", "wrong-session",
     "wrong-session-field", "plain", "plain-session-response", "nested", "forbidden", "unsupported", "client-send", "client-send", "pair", "idle", "keepalive",
+    "raise-then-replay", "raise-then-replay",
 )
 
 
@@ -393,6 +395,15 @@ def run_session_history(ctx, spec):
             connection_lost_cb=lambda: model.kinds.append("lost"),
         )
         session.register_callback(model.cb)
+
+        def raising_consumer(frame, source, transport):
+            # a consumer callback that fails on some frames; what it raises is its own business (recorded by deliver())
+            if state.get("raise_next"):
+                state["raise_next"] = False
+                ctx.count("consumer_callback_raised")
+                raise RuntimeError("consumer callback failed")
+
+        session.register_callback(raising_consumer)
         if spec["sends_before_connect"]:
             await client_send(session, False)
         task = asyncio.create_task(session.connect())
@@ -449,6 +460,15 @@ def run_session_history(ctx, spec):
                     break
                 if kind == "client-send":
                     await client_send(session, True)
+                elif kind == "raise-then-replay":
+                    ev = [wrapped_event("genuine")]
+                    state["raise_next"] = ev[0][1] is not None
+                    judge("genuine-consumer-raises", ev)
+                    state["raise_next"] = False
+                    await asyncio.sleep(rng.choice((0, 0, 0.01)))
+                    judge("replay-after-consumer-raised", [(ev[0][0], None, "replayed-after-consumer-callback-raised")])
+                    if rng.random() < 0.5:
+                        judge("genuine", [wrapped_event("genuine")])
                 else:
                     ev = event(kind)
                     if ev:
@@ -632,7 +652,7 @@ def run(ctx):
     ctx.require(
         "histories_session", "histories_tunnel", "expected_accept", "callbacks_seen", "tx_wrappers", "tx_plain_session_request", "connects_completed",
         "tx_inner_0954", "tx_inner_0207", "tx_inner_0953", "tunnel_injected_plain_forged_replayed", "client_sends",
-        "histories_tx_counter_near_end", "tx_wrappers_in_last_6_numbers_of_48_bit_range", "client_send_refused_IPSecureError",
+        "consumer_callback_raised", "event_replayed-after-consumer-callback-raised", "histories_tx_counter_near_end", "tx_wrappers_in_last_6_numbers_of_48_bit_range", "client_send_refused_IPSecureError",
         "genuine_accepted_below_rejected_number", "event_replayed", "event_nested-wrapper", "event_wrong-key", "event_stale-sequence-number",
     )
     n_a = ctx.scale(1200, 200000)
